@@ -219,6 +219,16 @@ pub fn close_position(
     let config: Config = read_config(deps.storage)?;
     let state: State = read_state(deps.storage)?;
 
+    // with native collateral the closing fees come attached to the message: remember what was
+    // sent, the reply compares it with the fees actually due
+    store_sent_funds(
+        deps.storage,
+        &SentFunds {
+            asset: get_asset(info.clone(), config.eligible_collateral.clone()),
+            required: Uint128::zero(),
+        },
+    )?;
+
     // validate address inputs
     let vamm = deps.api.addr_validate(&vamm)?;
     let trader = info.sender;
